@@ -457,7 +457,7 @@ def str_test(test):
             and isinstance(test.args[1], ast.Name)):
         if test.args[1].id == 'str':
             return (True, test.args[0])
-        if test.args[1].id == 'int':
+        if test.args[1].id in ('int', 'Line'):
             return (False, test.args[0])
     if isinstance(test, ast.Compare) and len(test.ops) == 1 and isinstance(test.comparators[0], ast.Name):
         l = test.left
@@ -466,7 +466,7 @@ def str_test(test):
             neg = isinstance(test.ops[0], (ast.NotEq, ast.IsNot))
             if (pos or neg) and test.comparators[0].id == 'str':
                 return (pos, l.args[0])
-            if (pos or neg) and test.comparators[0].id == 'int':
+            if (pos or neg) and test.comparators[0].id in ('int', 'Line'):
                 return (not pos, l.args[0])
     return None
 
@@ -640,8 +640,9 @@ class Flow:
         return self.merge_under(node.test, env, a, b)
 
     def e_BoolOp(self, node, env):
-        for v in node.values:
-            self.eval(v, env)
+        vals = [self.eval(v, env) for v in node.values]
+        if isinstance(node.op, ast.Or) and len(vals) == 2 and isinstance(vals[0], Toks) and is_empty_list(vals[1]):
+            return vals[0]           # `tokens or []`
         return Unk('bool')
 
     def e_UnaryOp(self, node, env):
@@ -697,6 +698,8 @@ class Flow:
         idx = self.eval(node.slice, env) if not isinstance(node.slice, ast.Slice) else None
         if isinstance(base, Tup) and isinstance(idx, K) and isinstance(idx.value, int) and -len(base.items) <= idx.value < len(base.items):
             return base.items[idx.value]
+        if isinstance(base, Seq) and isinstance(idx, Idx) and idx.seq == base and idx.base == 0 and not idx.late:
+            return base.elem
         if isinstance(base, Toks) and base.cut is not None and isinstance(idx, K) and idx.value == 0:
             return self.cut_before(base.text, base.cut, node)
         return Unk(unparse(node)[:60])
@@ -758,7 +761,9 @@ class Flow:
 
     def bind_iteration(self, target, it, env):
         """Bind a loop / comprehension target to one element of `it`."""
-        if isinstance(it, Enum):
+        if isinstance(it, Enum) and it.start is None:
+            self.bind(target, Idx(it.seq, 0), env)
+        elif isinstance(it, Enum):
             if isinstance(target, (ast.Tuple, ast.List)) and len(target.elts) == 2:
                 self.bind(target.elts[0], Idx(it.seq, it.start), env)
                 self.bind(target.elts[1], it.seq.elem, env)
@@ -874,6 +879,8 @@ class Flow:
             return Truth(attr, recv)
         if isinstance(recv, Text):
             return self.text_method(recv, attr, args, kw, node)
+        if isinstance(recv, TokEl) and attr in ('strip', 'lstrip', 'rstrip') and not args and not kw and SPACE in (recv.toks.sep.chars or ()):
+            return recv          # a token split off at whitespace has none to strip
         if isinstance(recv, Match):
             return Unk('match.' + attr)
         if attr == 'read' and not args and not kw and isinstance(recv, Unk):
@@ -929,6 +936,8 @@ class Flow:
         if attr == 'split':
             sep = args[0] if args else kw.get('sep', K(None))
             limited = len(args) > 1 or 'maxsplit' in kw
+            if recv.root == 'source':
+                return Unk('split of the source text (only splitlines() is followed)')
             if sep == K(None):
                 if limited:
                     return Unk('split with maxsplit')
@@ -1038,6 +1047,11 @@ class Flow:
             return Unk('count')
         return Count(start.value)
 
+    def b_range(self, args, kw, node, env):
+        if len(args) == 1 and isinstance(args[0], Len) and isinstance(args[0].of, Seq):
+            return Enum(args[0].of, None)          # positions only
+        return Unk('range')
+
     def b_zip(self, args, kw, node, env):
         if len(args) == 2 and isinstance(args[0], Count) and isinstance(args[1], Seq):
             return Enum(args[1], args[0].start)
@@ -1121,6 +1135,9 @@ class Flow:
         if isinstance(test, ast.UnaryOp) and isinstance(test.op, ast.Not):
             r = self.emptiness(test.operand, env)
             return None if r is None else (r[0], not r[1], r[2])
+        if isinstance(test, ast.NamedExpr) and isinstance(test.target, ast.Name):
+            self.eval(test, env)
+            return self.emptiness(test.target, env)
         if isinstance(test, ast.Call) and isinstance(test.func, ast.Name) and test.func.id == 'bool' and len(test.args) == 1 and 'bool' not in env:
             return self.emptiness(test.args[0], env)
         if isinstance(test, ast.Compare) and len(test.ops) == 1:
@@ -1180,45 +1197,41 @@ class Flow:
                     self.refine(env, v, truth)
             return
         # the parameter is a plain string rather than a Line object
-        name = None
-        if isinstance(test, ast.Compare) and len(test.ops) == 1 and isinstance(test.ops[0], (ast.Eq, ast.Is)):
-            l, r = test.left, test.comparators[0]
-            if (isinstance(l, ast.Call) and isinstance(l.func, ast.Name) and l.func.id == 'type' and len(l.args) == 1
-                    and isinstance(l.args[0], ast.Name) and isinstance(r, ast.Name) and r.id == 'str'):
-                name = l.args[0].id
-        if (isinstance(test, ast.Call) and isinstance(test.func, ast.Name) and test.func.id == 'isinstance' and len(test.args) == 2
-                and isinstance(test.args[0], ast.Name) and isinstance(test.args[1], ast.Name) and test.args[1].id == 'str'):
-            name = test.args[0].id
-        if name is not None:
-            if truth and isinstance(env.get(name), LineV):
-                env[name] = env[name].contents
+        r = str_test(test)
+        if r is not None:
+            pol, subj = r
+            if isinstance(subj, ast.Name) and isinstance(env.get(subj.id), LineV) and pol == truth:
+                env[subj.id] = env[subj.id].contents
             return
         cls = self.emptiness(test, env)
         if cls is None:
             # a condition on a token line that the rules do not understand: whether it has tokens is no longer known
             for n in ast.walk(test):
-                if isinstance(n, ast.Name) and isinstance(env.get(n.id), LT) and env[n.id].nonempty is False:
-                    lt = env[n.id]
-                    env[n.id] = LT(lt.line, lt.toks, None)
+                if not isinstance(n, ast.Name):
+                    continue
+                v = env.get(n.id)
+                if isinstance(v, Len):
+                    v = v.of
+                if isinstance(v, LexedToks):
+                    v = next((w for w in env.values() if isinstance(w, LT) and w.toks == v), None)
+                if isinstance(v, LT) and v.nonempty is False:
+                    for k, w in list(env.items()):
+                        if w == v:
+                            env[k] = LT(v.line, v.toks, None)
             return
-        subj, empty_when, snode = cls
+        subj, empty_when, _snode = cls
         nonempty = (empty_when != truth)
-        target = None
-        via_len = True
-        if isinstance(snode, ast.Name):
-            target = snode.id
-        elif isinstance(snode, ast.Attribute) and snode.attr == 'tokens' and isinstance(snode.value, ast.Name):
-            target = snode.value.id
-            via_len = False
-        if target is None or not isinstance(env.get(target), LT):
-            return
-        if via_len and not isinstance(subj, LT):
-            return
-        if via_len:
+        if isinstance(subj, LT):
             self.require_lt_len()
+            hit = [k for k, w in env.items() if w == subj]
+        elif isinstance(subj, LexedToks):
+            hit = [k for k, w in env.items() if isinstance(w, LT) and w.toks == subj]
+        else:
+            return
         if nonempty:
-            lt = env[target]
-            env[target] = LT(lt.line, lt.toks, True)
+            for k in hit:
+                lt = env[k]
+                env[k] = LT(lt.line, lt.toks, True)
 
     def merge_under(self, test, env, a, b):
         """Join of the values of the two arms of `test` (a: test true)."""
@@ -1274,7 +1287,7 @@ class Flow:
                 if isinstance(e, ast.Starred):
                     self.bind(e.value, Unk('starred'), env)
                 else:
-                    self.bind(e, items[i] if items is not None else Unk('unpacked'), env)
+                    self.bind(e, items[i] if items is not None else (value if isinstance(value, Unk) else Unk('unpacked from {!r}'.format(value)[:80])), env)
         elif isinstance(target, ast.Starred):
             self.bind(target.value, Unk('starred'), env)
         elif isinstance(target, (ast.Attribute, ast.Subscript)):
